@@ -888,6 +888,7 @@ func runC12(c *Ctx, pr *PropertyRun) {
 	// anything else is said about the request) (shared with C01.dispatch)
 	c01Dispatch(c, pr, "C12")
 	redirectCodesRule(c, pr, "C12")
+	clientStateRule(c, pr, "C12")
 	ops := NewRule("C12", "C12.level-ops", "level -> backend operation (or refusal) for every adapter method, with the request path unchanged (E2)")
 	ops.Exhaustive = true
 	pr.Rules = append(pr.Rules, ops)
@@ -1217,4 +1218,44 @@ func c12Discovery(c *Ctx, pr *PropertyRun) {
 		}
 	}
 	r.RequireRole("discovery-step")
+}
+
+// clientStateRule: a client resolves every endpoint-relative path against the
+// endpoint it was constructed with. A method that writes into its Client
+// receiver (remembering where a redirect led, caching a discovered path)
+// makes the answer of the next discovery step depend on the calls made
+// before it (shares the effect analysis with C18.no-shared-writes).
+func clientStateRule(c *Ctx, pr *PropertyRun, prop string) {
+	p := c.P
+	r := NewRule(prop, prop+".client-state", "no method writes into its Client receiver: endpoint-relative paths are resolved against the endpoint the client was made with, on every call (E5)")
+	pr.Rules = append(pr.Rules, r)
+	for _, w := range c.Effects().Writes {
+		if !inLib(w.Fn) {
+			continue
+		}
+		prm, ok := w.Root.(*ssa.Parameter)
+		if !ok || w.Fn.Signature.Recv() == nil || len(w.Fn.Params) == 0 || w.Fn.Params[0] != prm {
+			continue
+		}
+		n := recvNamed(w.Fn)
+		if n == nil || !inModuleType(n) || n.Obj().Name() != "Client" {
+			continue
+		}
+		r.Role("client-method-write")
+		r.Ob(false)
+		r.Violation("client-write|"+fnKey(w.Fn), p.instrPos(w.In), fmt.Sprintf("%s writes to its receiver (%s): what the client resolves paths against (or sends) now depends on the calls made before — the second discovery round on the same client starts from another place than the first", fnKey(w.Fn), strings.Join(w.Path, "")), nil)
+	}
+	// the rule must have something to look at: the clients' methods
+	nm := 0
+	for _, fn := range p.ModFns {
+		if n := recvNamed(fn); n != nil && inModuleType(n) && n.Obj().Name() == "Client" && inLib(fn) {
+			nm++
+			r.Ob(true)
+		}
+	}
+	if nm > 0 {
+		r.Role("client-method")
+	}
+	r.Count("client_methods", nm)
+	r.RequireRole("client-method")
 }
